@@ -1,4 +1,4 @@
-\* C46 thorough: 8000 random histories of 24 calls
+\* C46 thorough: 8000 random histories of 24 calls (replays among the calls drawn)
 CONSTANTS
   Pools = {"p1", "p2"}
   Counters = {0, 1, 2}
@@ -11,4 +11,4 @@ CONSTANTS
   Replays <- AllReplays
 INIT Init
 NEXT Next
-INVARIANTS TypeOK MonotoneLast CacheIsLastAccepted ReplayRejected ReplayAsFresh KnownIsPresented ReplaySourcedLast EmitHist
+INVARIANTS TypeOK MonotoneLast CacheIsLastAccepted KnownIsPresented ReplaySourcedLast EmitHist
